@@ -57,6 +57,74 @@ pub mod nom {
         }
     }
 
+
+    pub mod sequence {
+        use vstd::prelude::*;
+        use super::*;
+
+        /// nom::sequence::tuple for 2- and 3-tuples of parsers: runs them in order on what the
+        /// previous one left; the first error is the result (ASSUMED; nom 7.1.3 `Tuple::parse`)
+        pub trait TupleSpec<'a, O, E>: Sized {
+            spec fn tp_req(self) -> bool;
+            spec fn tp_post(self, i: &'a [u8], r: IResult<&'a [u8], O, E>) -> bool;
+        }
+        impl<'a, A, B, OA, OB, E> TupleSpec<'a, (OA, OB), E> for (A, B)
+            where A: Fn(&'a [u8]) -> IResult<&'a [u8], OA, E>, B: Fn(&'a [u8]) -> IResult<&'a [u8], OB, E>
+        {
+            open spec fn tp_req(self) -> bool {
+                (forall|i: &'a [u8]| #[trigger] self.0.requires((i,))) && (forall|i: &'a [u8]| #[trigger] self.1.requires((i,)))
+            }
+            open spec fn tp_post(self, i: &'a [u8], r: IResult<&'a [u8], (OA, OB), E>) -> bool {
+                match r {
+                    Ok((rest, (a, b))) => exists|i1: &'a [u8]| #![auto] self.0.ensures((i,), Ok((i1, a))) && self.1.ensures((i1,), Ok((rest, b))),
+                    Err(e) => self.0.ensures((i,), Err(e)) || exists|i1: &'a [u8], a: OA| #![auto] self.0.ensures((i,), Ok((i1, a))) && self.1.ensures((i1,), Err(e)),
+                }
+            }
+        }
+        impl<'a, A, B, C, OA, OB, OC, E> TupleSpec<'a, (OA, OB, OC), E> for (A, B, C)
+            where A: Fn(&'a [u8]) -> IResult<&'a [u8], OA, E>, B: Fn(&'a [u8]) -> IResult<&'a [u8], OB, E>, C: Fn(&'a [u8]) -> IResult<&'a [u8], OC, E>
+        {
+            open spec fn tp_req(self) -> bool {
+                (forall|i: &'a [u8]| #[trigger] self.0.requires((i,))) && (forall|i: &'a [u8]| #[trigger] self.1.requires((i,))) && (forall|i: &'a [u8]| #[trigger] self.2.requires((i,)))
+            }
+            open spec fn tp_post(self, i: &'a [u8], r: IResult<&'a [u8], (OA, OB, OC), E>) -> bool {
+                match r {
+                    Ok((rest, (a, b, c))) => exists|i1: &'a [u8], i2: &'a [u8]| #![auto] self.0.ensures((i,), Ok((i1, a))) && self.1.ensures((i1,), Ok((i2, b))) && self.2.ensures((i2,), Ok((rest, c))),
+                    Err(e) => self.0.ensures((i,), Err(e))
+                        || (exists|i1: &'a [u8], a: OA| #![auto] self.0.ensures((i,), Ok((i1, a))) && self.1.ensures((i1,), Err(e)))
+                        || (exists|i1: &'a [u8], a: OA, i2: &'a [u8], b: OB| #![auto] self.0.ensures((i,), Ok((i1, a))) && self.1.ensures((i1,), Ok((i2, b))) && self.2.ensures((i2,), Err(e))),
+                }
+            }
+        }
+        #[verifier::external_body]
+        pub fn tuple<'a, O, E, L: TupleSpec<'a, O, E>>(l: L) -> (f: impl Fn(&'a [u8]) -> IResult<&'a [u8], O, E>)
+            requires
+                l.tp_req(),
+            ensures
+                forall|i: &'a [u8]| #[trigger] f.requires((i,)),
+                forall|i: &'a [u8], r: IResult<&'a [u8], O, E>| #[trigger] f.ensures((i,), r) ==> l.tp_post(i, r),
+        {
+            move |i: &'a [u8]| unimplemented!()
+        }
+    }
+
+    pub mod number {
+        pub mod streaming {
+            use vstd::prelude::*;
+            use super::super::*;
+            use crate::spec::*;
+            /// big-endian u16, streaming: 2 bytes or Incomplete(2 - len) (ASSUMED; nom 7.1.3)
+            #[verifier::external_body]
+            pub fn be_u16<E>(i: &[u8]) -> (r: IResult<&[u8], u16, E>)
+                ensures
+                    i@.len() >= 2 ==> (match r { Ok((rest, v)) => rest@ == i@.subrange(2, i@.len() as int) && v as int == (i@[0] as int) * 256 + (i@[1] as int), Err(_) => false }),
+                    i@.len() < 2 ==> (match r { Err(Err::Incomplete(NeededE::Size(k))) => k@ == 2 - i@.len(), _ => false }),
+            {
+                unimplemented!()
+            }
+        }
+    }
+
     pub mod bytes {
         pub mod streaming {
             use vstd::prelude::*;
@@ -70,6 +138,28 @@ pub mod nom {
                 ensures
                     forall|i: &[u8]| #[trigger] f.requires((i,)),
                     forall|i: &[u8], r: IResult<&[u8], &[u8], E>| #[trigger] f.ensures((i,), r) ==> spec_take(count.to_usize_spec(), i@, r),
+            {
+                move |i: &[u8]| unimplemented!()
+            }
+
+
+            /// what `tag` compares against: the bytes of its argument
+            pub trait TagArg: Sized {
+                spec fn tag_bytes(self) -> Seq<u8>;
+            }
+            impl<'b> TagArg for &'b str {
+                open spec fn tag_bytes(self) -> Seq<u8> { crate::spec::str_bytes(self) }
+            }
+            impl<'b> TagArg for &'b [u8; 1] {
+                open spec fn tag_bytes(self) -> Seq<u8> { self@ }
+            }
+            /// streaming `tag(t)`: input starts with t => Ok((i[|t|..], i[..|t|])); input is a
+            /// proper prefix of t => Incomplete(|t| - |i|); otherwise Error (ASSUMED; nom 7.1.3)
+            #[verifier::external_body]
+            pub fn tag<T: TagArg, E>(t: T) -> (f: impl Fn(&[u8]) -> IResult<&[u8], &[u8], E>)
+                ensures
+                    forall|i: &[u8]| #[trigger] f.requires((i,)),
+                    forall|i: &[u8], r: IResult<&[u8], &[u8], E>| #[trigger] f.ensures((i,), r) ==> spec_tag(t.tag_bytes(), i@, r),
             {
                 move |i: &[u8]| unimplemented!()
             }
@@ -119,6 +209,22 @@ pub mod spec {
             }
         }
     }
+
+    pub open spec fn spec_tag<E>(t: Seq<u8>, i: Seq<u8>, r: IResult<&[u8], &[u8], E>) -> bool {
+        if i.len() >= t.len() && i.subrange(0, t.len() as int) == t {
+            match r { Ok((rest, out)) => rest@ == i.subrange(t.len() as int, i.len() as int) && out@ == t, Err(_) => false }
+        } else if i.len() < t.len() && i == t.subrange(0, i.len() as int) {
+            match r { Err(Err::Incomplete(NeededE::Size(n))) => n@ == t.len() - i.len(), _ => false }
+        } else {
+            match r { Err(Err::Error(_)) => true, _ => false }
+        }
+    }
+
+    /// the bytes of the one string literal the crate passes to `tag` (ASSUMED: ASCII)
+    pub broadcast axiom fn axiom_dlt_literal()
+        ensures
+            #[trigger] str_bytes("DLT") == seq![0x44u8, 0x4Cu8, 0x54u8],
+    ;
 
     /// index of the first NUL byte of s, or |s| if there is none
     pub open spec fn first_nul(s: Seq<u8>) -> int
